@@ -16,7 +16,7 @@ sys.path.insert(0, os.path.dirname(os.path.dirname(__file__)))
 import vlib
 from vlib import Line, dec
 
-FAMILIES = [0, 1, 2, 3, 4, 5]
+FAMILIES = [0, 1, 2, 3, 4, 5, 6]
 TOL_FIRST = 1e-4
 TOL_SECOND = 5e-2
 TOL_RESTORE = 1e-15
@@ -46,7 +46,8 @@ class C08:
     lean_targets = ['SmoothProps.C08']
     rule = ('harness/diff.cpp: callables with closed-form derivatives {prod x*y, log, action x*v, rminus, 0.5|x-y|^2, '
             'sum_i log(v_i) over std::vector<G>, (x*y)*v, polynomial maps R x R3 x R^n -> R^m (incl. affine)} on '
-            '{SO3, SE2, SE3, Bundle<SO3,R2>}; argument kinds group/static vector/dynamic vector/scalar/std::vector/Bundle; '
+            '{SO3, SE2, SE3, Bundle<SO3,R2>} and, for prod/rminus, on the commutative rotation groups {SO2, C1, Bundle<SO2,R2>} with '
+            'angles at and around the +-pi branch cut (pi-1e-9..1e-2, -pi+1e-9..1e-2, pi, generic); argument kinds group/static vector/dynamic vector/scalar/std::vector/Bundle; '
             'K in {0,1,2} x modes {Numerical, Analytic, Default with and without member jacobian/hessian} x const masks '
             '{none, all, mixed} x every non-empty index subset of up to 3 arguments; vector coordinates zero or of '
             'magnitude 0.1..10, group elements exp of tangents in [-1.2,1.2]; distinct_nontrivial = distinct '
